@@ -159,7 +159,9 @@ def run_real(ops, names, ctx, case):
                             raise
                 return sentinel[i]
             fn.__name__ = nm
-            return tr.trace()(fn)
+            return (shared_deco if shared_deco is not None else tr.trace())(fn)
+        # one decorator object kept and applied to several functions (`timed = trace()`), or a fresh one per function
+        shared_deco = tr.trace() if (len(ops) + sum(1 for o in ops if o[0] == 'c')) % 3 == 0 else None
         fns = [mk(i, nm) for i, nm in enumerate(names)]
         for op in ops:
             if op[0] == 'c':
